@@ -1,4 +1,4 @@
-CONSTANT MaxN = 5
+CONSTANTS MaxN = 5 MaxNHist = 4
 INIT Init
 NEXT Next
 INVARIANT Emitted
